@@ -25,6 +25,12 @@ struct Case {
 	capacity: usize,
 	slack: usize,
 	ops: Vec<Op>,
+	/// the access counter starts this many steps below 2^`counter_bits` (0 bits: starts at 0);
+	/// set through the verification hook of the cache
+	#[serde(default)]
+	counter_bits: u8,
+	#[serde(default)]
+	counter_below: u16,
 }
 
 const PER: usize = std::mem::size_of::<u32>() + std::mem::size_of::<u64>();
@@ -42,7 +48,8 @@ fn strategy(max_ops: usize) -> impl Strategy<Value = Case> {
 			2 => (k(), k()).prop_map(|(a, b)| Op::Probe(a, b)),
 			1 => (k(), k()).prop_map(|(a, b)| Op::ProbeGet(a, b)),
 		];
-		proptest::collection::vec(op, 1..max_ops).prop_map(move |ops| Case { capacity, slack, ops })
+		(proptest::collection::vec(op, 1..max_ops), prop_oneof![6 => Just(0u8), 1 => Just(8u8), 2 => Just(16u8), 1 => Just(31u8), 3 => Just(32u8), 1 => Just(53u8), 1 => Just(63u8)], 0u16..600)
+			.prop_map(move |(ops, counter_bits, counter_below)| Case { capacity, slack, ops, counter_bits, counter_below })
 	})
 }
 
@@ -67,6 +74,12 @@ struct Model {
 fn oracle(case: &Case, obs: &mut Obs) -> Result<(), Fail> {
 	let cap = case.capacity;
 	let mut cache: LimitedCache<u32, u64> = LimitedCache::with_maximum_size(cap * PER + case.slack);
+	if case.counter_bits > 0 {
+		// histories that cross 2^8, 2^16, 2^31, 2^32, 2^53, 2^63 accesses (the counter is 64 bits wide:
+		// 2^64 itself is out of reach of any real history)
+		cache.verif_set_access_counter((1u64 << case.counter_bits.min(63)).saturating_sub(case.counter_below as u64));
+		obs.label(format!("counter-starts-below-2^{}", case.counter_bits.min(63)));
+	}
 	let mut m = Model { cur: BTreeMap::new(), absent: BTreeSet::new(), next_value: 1, evictions: 0, probes_at_capacity: 0 };
 
 	fn check_len(cache: &LimitedCache<u32, u64>, cap: usize, step: usize) -> Result<usize, Fail> {
